@@ -445,7 +445,7 @@ static void run_one(case_t const& c)
     pika::verif::sink.store(&sink);
     // watchdog (live runs only; the direct calls of kind=arith are bounded, get_chunk_size is
     // guarded by a CPU-time timer): the operation is declared stuck when there was no hook event
-    // and no call of f for 60 s of wall time during which this process consumed >= 10 s of CPU
+    // and no call of f for 25 s of wall time during which this process consumed >= 8 s of CPU
     // time (so a starved machine never produces the verdict)
     if (c.gets("kind", "arith") != "arith")
         std::thread([] {
@@ -463,7 +463,7 @@ static void run_one(case_t const& c)
                 }
                 else { ++idle; }
                 last = p;
-                if (idle >= 600 && double(std::clock() - cpu0) / CLOCKS_PER_SEC >= 10.0)
+                if (idle >= 250 && double(std::clock() - cpu0) / CLOCKS_PER_SEC >= 8.0)
                 {
                     g_trace = false;
                     dump_log();
